@@ -79,6 +79,19 @@ Theorem at_most_one_live_token_per_profile : forall v ops u t1 t2,
 Proof. exact one_live_token. Qed.
 Print Assumptions at_most_one_live_token_per_profile.
 
+(* a profile update (new passphrase / KMS options) revokes no token and grants none: sessions, handles, contents, keys
+   and the store manager are what they were; creating a profile over an existing one is refused and changes nothing.
+   (The correspondence checks on the real wallet that the update also leaves every token decision, every stored row
+   and every key's owner as the model says, for instances made before and after the update.) *)
+Theorem profile_update_changes_no_session_or_content : forall v st u, fst (step v st (WUpdate u)) = st.
+Proof. exact update_same. Qed.
+Print Assumptions profile_update_changes_no_session_or_content.
+
+Theorem profile_recreation_refused : forall v st u,
+  existsb (N.eqb u) (profiles st) = true -> step v st (WCreate u) = (st, RErr).
+Proof. exact recreate_same. Qed.
+Print Assumptions profile_recreation_refused.
+
 (* ISOLATION.  Whatever a token operation hands back (Get: a value; GetAll by type or by collection: rows) is a row
    of the store of the profile of the instance it was called on ... *)
 Theorem reads_return_own_rows_only : forall v st i t k u h st' r,
@@ -230,6 +243,14 @@ Example gate_nonvacuous :
   = [RDone; RDone; RDone; RDone; RTok 0; RTok 1;
      RDone; RVal 7; RBadToken; RBadToken; RNotFound; RBadToken;
      RBool true; RLocked; RTok 2; RDone; RVal 7; RDone; RVal 7; RDone; RBadToken].
+Proof. vm_compute. reflexivity. Qed.
+
+Example update_nonvacuous :
+  snd (run Fixed init (witness_setup ++
+    [WOp 0%nat 0 (KAdd 1 7); WUpdate 1; WOp 0%nat 0 (KGet 1); WNew 1; WOp 2%nat 0 (KGet 1); WOp 2%nat 1 (KGet 1);
+     WCreate 1; WOpen 2%nat false 10; WOpen 2%nat true 10; WClose 2%nat; WOp 0%nat 0 (KGet 1); WOpen 2%nat true 10]))
+  = [RDone; RDone; RDone; RDone; RTok 0; RTok 1;
+     RDone; RDone; RVal 7; RDone; RVal 7; RBadToken; RErr; RErr; RAlready; RBool true; RBadToken; RTok 2].
 Proof. vm_compute. reflexivity. Qed.
 
 Example grants_nonvacuous :
